@@ -569,6 +569,7 @@ def raft_seam(ctx):
     rng.shuffle(both)
     for k, sc in enumerate(both[:2 if ctx.quick() else 12]):
         sc["retries"] = 0 if k % 2 == 0 else 1
+        sc["leaderless"] = k % 2 == 0
     ctx.extra["raft_seam_commit_retries_0_scripts"] = len(both[:2 if ctx.quick() else 12][0::2])
     scripts += c17.goal_scripts(ctx, ["NoRestartAfterUnpin", "NoRestartAfterChurn"], (3, 2, 5, 2, 2), "C01", 1000)
     ctx.extra["raft_seam_scripts"] = len(scripts)
